@@ -35,7 +35,7 @@ for PAT in "$@"; do
         bad="$bad\n    $p exit=$r $sig"
       fi
     done
-    git -C "$R" checkout -- .
+    git -C "$R" checkout -- . && git -C "$R" clean -fdq -e target
     if [ -z "$bad" ]; then echo "SILENT $name" | tee -a "$res"; else alarms=$((alarms+1)); printf "ALARM $name$bad\n" | tee -a "$res"; fi
   done
 done
